@@ -126,13 +126,18 @@ func (g *Gen) inlineCall(v ssa.Value, callee *ssa.Function, c *ssa.CallCommon, s
 	g.edgeCond, g.curBlock, g.curMods, g.inl, g.inlReach, g.inlPrefix = savedEdge, savedBlock, savedMods, savedInl, savedReach, savedPrefix
 	// the helper's writes are writes of the calling block: the loop-frame inference looks at the
 	// write records of the blocks of a loop body, and the helper's own blocks are not among them.
-	// Recorded without a base ("anywhere"), so that no frame is inferred from them. (Found by the
+	// Recorded without a base ("anywhere") unless the base is an allocation of the helper itself, so
+	// that no frame is inferred from them. (Found by the
 	// must-fail corpus: seed c16g went unreported after inlining was added -- its helper's write
 	// happened inside a loop whose frame was then inferred as "this heap is not written".)
 	if g.dry && savedBlock != nil {
 		for _, b := range rpoOf(callee) {
 			for _, w := range g.writeLog[b] {
-				g.writeLog[savedBlock] = append(g.writeLog[savedBlock], writeRec{w.heap, nil})
+				base := w.base
+				if base != nil && !isFreshValue(base, 0) {
+					base = nil // (a write into an object the helper allocated stays what it is: it touches nothing that existed before)
+				}
+				g.writeLog[savedBlock] = append(g.writeLog[savedBlock], writeRec{w.heap, base})
 			}
 		}
 	}
